@@ -138,3 +138,38 @@ Example conc_example :
   fst (run_sched nat nat [0; 0; 1] ex_threads ex_heap) 0 = 10 /\
   fst (run_sched nat nat [0; 1; 0] ex_threads ex_heap) 1 = 5.
 Proof. cbn. repeat split. Qed.
+
+(* the same program meets every hypothesis of the interleaving theorem: thread i owns cell i (i < 2), cell 2 is
+   shared and never written; all three complete schedules end with both threads done and the same heap *)
+Local Close Scope N_scope.
+Local Open Scope nat_scope.
+Definition ex_owns (i l : nat) : Prop := i = l /\ l < 2.
+Lemma conc_example_full :
+  (forall i j l, ex_owns i l -> ex_owns j l -> i = j) /\
+  all_ok nat nat ex_owns ex_threads /\
+  (forall sched, In sched [[1; 0; 0]; [0; 0; 1]; [0; 1; 0]] ->
+     complete nat nat (snd (run_sched nat nat sched ex_threads ex_heap)) /\
+     fst (run_sched nat nat sched ex_threads ex_heap) 0 = 10 /\
+     fst (run_sched nat nat sched ex_threads ex_heap) 1 = 5 /\
+     fst (run_sched nat nat sched ex_threads ex_heap) 2 = 5).
+Proof.
+  split; [|split].
+  - unfold ex_owns; intros i j l [Hi _] [Hj _]; congruence.
+  - assert (Hok : forall i, (i < 2)%nat -> ok_for nat nat ex_owns i (ex_act i)).
+    { intros i Hi; split.
+      - intros h l Hn. unfold ex_act. destruct (Nat.eqb_spec l i) as [->|Hne]; [|reflexivity].
+        exfalso; apply Hn; split; [reflexivity|exact Hi].
+      - intros h h' Heq l [Hil _]. subst l. unfold ex_act. rewrite Nat.eqb_refl.
+        rewrite (Heq i), (Heq 2); [reflexivity| |].
+        + right. intros k [Hk Hlt]. lia.
+        + left. split; [reflexivity|exact Hi]. }
+    intros i. unfold remaining, ex_threads.
+    destruct i as [|[|i]]; cbn [nth].
+    + repeat constructor; apply Hok; lia.
+    + repeat constructor; apply Hok; lia.
+    + destruct i; constructor.
+  - intros sched Hs. cbn [In] in Hs.
+    assert (Hc : forall i, nth i [[]; []] ([] : list (action nat nat)) = []).
+    { intros [|[|[|i]]]; reflexivity. }
+    destruct Hs as [<-|[<-|[<-|[]]]]; (split; [intros i; exact (Hc i)|cbn; repeat split]).
+Qed.
